@@ -799,6 +799,50 @@ func c20Book(c *Ctx) {
 						}
 					}
 				}
+				if !filed && fenV != nil {
+					// the inner map kept in a local: every definition of it is the outer map's entry under the stripped
+					// key of that FEN - looked up, or freshly made and stored there
+					isStripOfFen := func(idx ssa.Value) bool {
+						var ds []ssa.Value
+						resolveDefs(idx, map[ssa.Value]bool{}, &ds)
+						if len(ds) == 0 {
+							return false
+						}
+						for _, d := range ds {
+							sc, ok := d.(*ssa.Call)
+							if !ok || sc.Call.StaticCallee() == nil || sc.Call.StaticCallee().Name() != "Strip" || len(sc.Call.Args) != 1 || !sameLoad(ev.subst(sc.Call.Args[0]), fenV) {
+								return false
+							}
+						}
+						return true
+					}
+					var defs []ssa.Value
+					resolveDefs(ev.mapV, map[ssa.Value]bool{}, &defs)
+					all := len(defs) > 0
+					for _, d := range defs {
+						switch x := d.(type) {
+						case *ssa.Lookup:
+							if !isStripOfFen(x.Index) {
+								all = false
+							}
+						case *ssa.MakeMap:
+							stored := false
+							if x.Referrers() != nil {
+								for _, ref := range *x.Referrers() {
+									if mu, ok := ref.(*ssa.MapUpdate); ok && mu.Value == ssa.Value(x) && isStripOfFen(mu.Key) {
+										stored = true
+									}
+								}
+							}
+							if !stored {
+								all = false
+							}
+						default:
+							all = false
+						}
+					}
+					filed = all
+				}
 				if !filed {
 					bad = joinNonEmpty(bad, fmt.Sprintf("the move is generated on %s but filed under %s", pathExpr(pos), pathExpr(ev.mapV)))
 				}
